@@ -334,7 +334,15 @@ def workload(ctx):
             arr = np.empty((2, 2), dtype=object)
             for j in np.ndindex(2, 2):
                 arr[j] = gen.int(2)
+            # object arrays whose entries evaluate to sequences (tuples / lists of equal length)
+            arr_t = np.empty((2, 2), dtype=object)
+            for j in np.ndindex(2, 2):
+                arr_t[j] = (gen.int(1), gen.int(1)) if rng.random() < 0.7 else [gen.int(1), 3]
+            arr_1 = np.empty((3,), dtype=object)
+            for j in range(3):
+                arr_1[j] = (gen.int(1), gen.int(1), 5)
             for cont, hashable in ((list(items), False), (tuple(items), True), (arr, False),
+                                   (arr_t, False), (arr_1, False),
                                    ([tuple(items), [p.NaN(), 1]], False),
                                    (p.Sum((p.NaN(), gen.num(2))), True),
                                    (p.NaN(np.float32), True)):
